@@ -20,6 +20,7 @@ func init() {
 			"PV-ROLE: lexer and parser are configured from the caller's ParseOptions.AllowDots; FE-CLASS: the scanner's identifier-character table; PV-API label regexps are compiled anchored whatever else uses the same text",
 			"PV-PAIR regexp stage: a named group is stored under its own submatch index; PV-ORDER comma lists: after a separating comma no successful return is reachable before another element was parsed",
 			"PV-ROLE the scanner reads Tokenize's own parameter; PV-FRESH parse methods write no parser field but the integer position",
+			"PV-FRESH BinOpExpr.Modifier comes from the modifier parse of the same operator",
 		},
 		NotDecided: []string{"acceptance of the whole grammar / independence from layout, comments and redundant parentheses beyond the look-ahead rule", "and/or precedence inside label predicates", "numeric literal values, string unquoting (strutil.Unquote), duration/bytes literal values"},
 		Rules: func(r *Run) {
@@ -46,6 +47,7 @@ func init() {
 			ruleCommaListElement(r)
 			ruleLexerInputVerbatim(r)
 			ruleParserStateOnlyPosition(r)
+			ruleBinOpModifierFresh(r)
 		},
 	})
 }
